@@ -65,14 +65,12 @@ func c06(r *core.Run) {
 	r.Rule("R4", "match assembly: node, mount index and params of the match record are written together at each accept site, the mount index stored is the one used to rebase that site's params; every Match literal takes Handler, Listeners and Group from the same node and Params from the match record", 6)
 
 	root := p.FuncsOfPkg("")
-	mn := p.Func("matchNode")
-	if mn == nil {
-		r.Unres("R1", "matchNode", "function not found")
+	ro := resolveMuxRoles(r)
+	if ro == nil {
 		return
 	}
-	nodeNodes := core.Field{Struct: "node", Name: "nodes"}
-	nodeParam := core.Field{Struct: "node", Name: "param"}
-	nodeWild := core.Field{Struct: "node", Name: "wild"}
+	mn := ro.matchNode
+	nodeNodes, nodeParam, nodeWild := ro.nodeNodes, ro.nodeParam, ro.nodeWild
 
 	// ---- R1 --------------------------------------------------------------
 	var lit, par, wild []ssa.Instruction
@@ -193,15 +191,13 @@ func c06(r *core.Run) {
 	r.Check(nRec >= 1, "R1", "matchNode", "recurses", p.Pos(mn.Pos()), "descends token by token", "matchNode does not recurse")
 
 	// ---- R2 --------------------------------------------------------------
-	c06Units(r, root)
+	c06Units(r, root, ro)
 
 	// ---- R3 --------------------------------------------------------------
-	c06Registration(r, root)
+	c06Registration(r, root, ro)
 
 	// ---- R4 --------------------------------------------------------------
-	nmN := core.Field{Struct: "nodeMatch", Name: "n"}
-	nmMI := core.Field{Struct: "nodeMatch", Name: "mountIdx"}
-	nmP := core.Field{Struct: "nodeMatch", Name: "params"}
+	nmN, nmMI, nmP := ro.nmNode, ro.nmMountIdx, ro.nmParams
 	storesIn := func(b *ssa.BasicBlock, f core.Field) []*ssa.Store {
 		var out []*ssa.Store
 		for _, in := range b.Instrs {
@@ -218,7 +214,11 @@ func c06(r *core.Run) {
 		for _, b := range fn.Blocks {
 			ns, ms := storesIn(b, nmN), storesIn(b, nmMI)
 			for _, st := range ns {
-				nAccept++
+				if n := len(p.Lift(st, mn)); n > 0 {
+					nAccept += n
+				} else {
+					nAccept++
+				}
 				good := len(ms) == 1
 				rebOK := false
 				if good {
@@ -230,7 +230,7 @@ func c06(r *core.Run) {
 						}
 						for _, in := range b2.Instrs {
 							if bo, ok := in.(*ssa.BinOp); ok && bo.Op == token.ADD {
-								if f, ok := core.LoadedField(bo.X); ok && f.Name == "idx" && bo.Y == mv {
+								if f, ok := core.LoadedField(bo.X); ok && f == ro.ppIdx && bo.Y == mv {
 									rebOK = true
 								}
 							}
@@ -272,7 +272,7 @@ func c06(r *core.Run) {
 						for _, r2 := range *fa.Referrers() {
 							if st, ok := r2.(*ssa.Store); ok && st.Addr == fa {
 								v := st.Val
-								if c, ok := v.(*ssa.Call); ok && c.Common().StaticCallee() != nil && c.Common().StaticCallee().Name() == "toString" {
+								if c, ok := v.(*ssa.Call); ok && c.Common().StaticCallee() != nil && c.Common().StaticCallee() == ro.toString {
 									src[f.Name] = "toString(" + fieldChain(c.Common().Args[0], 0) + ")"
 									// second argument: tokens re-sliced at the record's mount index (or nil for the root)
 									if sl, ok := c.Common().Args[2].(*ssa.Slice); ok {
@@ -288,22 +288,22 @@ func c06(r *core.Run) {
 				}
 				// node base: strip the trailing field names
 				base := func(s, suffix string) string { return strings.TrimSuffix(s, suffix) }
-				hb := base(src["Handler"], ">node.hs>regHandler.Handler")
-				lb := base(src["Listeners"], ">node.listeners")
-				gb := base(strings.TrimSuffix(strings.TrimPrefix(src["Group"], "toString("), ")"), ">node.hs>regHandler.group")
+				hb := base(src["Handler"], ">"+ro.nodeHs.String()+">regHandler.Handler")
+				lb := base(src["Listeners"], ">"+ro.nodeListeners.String())
+				gb := base(strings.TrimSuffix(strings.TrimPrefix(src["Group"], "toString("), ")"), ">"+ro.nodeHs.String()+">"+ro.rhGroup.String())
 				same := hb != "" && hb == lb && hb == gb && hb != src["Handler"]
 				r.Check(same, "R4", core.FuncName(fn), "Match{Handler,Listeners,Group}-from-one-node:"+hb, p.InstrPos(al), "all three come from node "+hb, fmt.Sprintf("Match is assembled from different nodes: Handler<-%s Listeners<-%s Group<-%s", src["Handler"], src["Listeners"], src["Group"]))
-				if strings.HasPrefix(hb, "local:nm") || strings.Contains(hb, "nodeMatch.n") {
-					r.Check(strings.HasSuffix(src["Params"], "nodeMatch.params"), "R4", core.FuncName(fn), "Match.Params<-record.params", p.InstrPos(al), "path parameters come from the match record", "Match.Params is fed from "+src["Params"])
+				if strings.Contains(hb, nmN.String()) {
+					r.Check(strings.HasSuffix(src["Params"], nmP.String()), "R4", core.FuncName(fn), "Match.Params<-record.params", p.InstrPos(al), "path parameters come from the match record", "Match.Params is fed from "+src["Params"])
 				}
 			}
 		}
 	}
 }
 
-func c06Units(r *core.Run, root []*ssa.Function) {
+func c06Units(r *core.Run, root []*ssa.Function, ro *muxRoles) {
 	p := r.P
-	isIdxField := func(f core.Field) bool { return f.Name == "idx" && (f.Struct == "pathParam" || f.Struct == "gpart") }
+	isIdxField := func(f core.Field) bool { return f == ro.ppIdx || f == ro.gpIdx }
 	isMountIndex := func(v ssa.Value) bool {
 		switch x := v.(type) {
 		case *ssa.Parameter:
@@ -315,10 +315,52 @@ func c06Units(r *core.Run, root []*ssa.Function) {
 					return true
 				}
 			}
-			// loop-carried mount index in fetch: phi of [0, i]
-			return strings.Contains(strings.ToLower(x.Comment), "mount") || x.Comment == "mi"
+			// loop-carried mount index in fetch: a phi whose leaves (through phis) are the
+			// constant 0 and values of the token loop's own index
+			seen := map[ssa.Value]bool{}
+			hasZero, hasIdx, other := false, false, false
+			var walk func(v ssa.Value, d int)
+			walk = func(v ssa.Value, d int) {
+				if seen[v] || d > 6 {
+					return
+				}
+				seen[v] = true
+				switch y := v.(type) {
+				case *ssa.Phi:
+					if y != x && strings.Contains(y.Comment, "rangeindex") {
+						hasIdx = true
+						return
+					}
+					for _, e := range y.Edges {
+						walk(e, d+1)
+					}
+				case *ssa.Const:
+					if c, ok := core.ConstInt(y); ok && c == 0 {
+						hasZero = true
+					} else {
+						other = true
+					}
+				case *ssa.BinOp:
+					// rangeindex + 1
+					if ph, ok := y.X.(*ssa.Phi); ok && y.Op == token.ADD && strings.Contains(ph.Comment, "rangeindex") {
+						hasIdx = true
+					} else {
+						other = true
+					}
+				default:
+					other = true
+				}
+			}
+			walk(x, 0)
+			return hasZero && hasIdx && !other
 		}
 		return false
+	}
+	label := func(f core.Field) string {
+		if f == ro.gpIdx {
+			return "group-tag.index"
+		}
+		return "path-param.index"
 	}
 	rebasedRead := map[string]bool{} // struct name -> read against mount-rebased tokens
 	for _, ac := range core.FieldAccesses(root, isIdxField) {
@@ -347,16 +389,16 @@ func c06Units(r *core.Run, root []*ssa.Function) {
 							}
 						}
 						rebasedRead[ac.F.Struct] = true
-						r.Check(isMountIndex(other) && usedAsIndex, "R2", fn, "read("+ac.F.String()+")+mountIndex->index", p.InstrPos(x), "rebased by the mount index before indexing the token slice", "index field is added to "+valDesc(other)+" (not a mount index) or the sum is not used as an index")
+						r.Check(isMountIndex(other) && usedAsIndex, "R2", fn, "read("+label(ac.F)+")+mountIndex->index", p.InstrPos(x), "rebased by the mount index before indexing the token slice", "index field is added to "+valDesc(other)+" (not a mount index) or the sum is not used as an index")
 					case token.EQL, token.NEQ:
 						other := x.Y
 						if other == v {
 							other = x.X
 						}
 						f, ok := core.LoadedField(other)
-						r.Check(ok && isIdxField(f), "R2", fn, "read("+ac.F.String()+")-compared-with-same-unit", p.InstrPos(x), "compared with another mount-relative index", "mount-relative index compared with "+valDesc(other))
+						r.Check(ok && isIdxField(f), "R2", fn, "read("+label(ac.F)+")-compared-with-same-unit", p.InstrPos(x), "compared with another mount-relative index", "mount-relative index compared with "+valDesc(other))
 					default:
-						r.Bad("R2", fn, "read("+ac.F.String()+")-arith", p.InstrPos(x), "mount-relative index used in arithmetic "+x.Op.String())
+						r.Bad("R2", fn, "read("+label(ac.F)+")-arith", p.InstrPos(x), "mount-relative index used in arithmetic "+x.Op.String())
 					}
 				case *ssa.IndexAddr:
 					// direct index: the indexed slice must be a parameter that every caller re-slices at a mount index (or passes nil)
@@ -387,7 +429,7 @@ func c06Units(r *core.Run, root []*ssa.Function) {
 							}
 						}
 					}
-					r.Check(good, "R2", fn, "read("+ac.F.String()+")-indexes-rebased-slice", p.InstrPos(x), "indexes a token slice that every caller re-slices at the mount index (or nil)", "mount-relative index applied to a slice that is not rebased by all callers")
+					r.Check(good, "R2", fn, "read("+label(ac.F)+")-indexes-rebased-slice", p.InstrPos(x), "indexes a token slice that every caller re-slices at the mount index (or nil)", "mount-relative index applied to a slice that is not rebased by all callers")
 				case *ssa.Store, *ssa.DebugRef, *ssa.MakeInterface:
 				}
 			}
@@ -401,12 +443,12 @@ func c06Units(r *core.Run, root []*ssa.Function) {
 			if !rebasedRead[ac.F.Struct] {
 				// decide after all reads are seen: defer by re-checking below
 			}
-			r.Check(good, "R2", fn, "write("+ac.F.String()+")=tokenIndex-mountIndex", p.InstrPos(st), "stored relative to the mount point", "index written as "+valDesc(st.Val)+" (a raw pattern token index) although it is read against mount-rebased tokens: a handler registered through a parent mux across a mount point gets the wrong token or an index-out-of-range panic")
+			r.Check(good, "R2", fn, "write("+label(ac.F)+")=tokenIndex-mountIndex", p.InstrPos(st), "stored relative to the mount point", "index written as "+valDesc(st.Val)+" (a raw pattern token index) although it is read against mount-rebased tokens: a handler registered through a parent mux across a mount point gets the wrong token or an index-out-of-range panic")
 		}
 	}
 }
 
-func c06Registration(r *core.Run, root []*ssa.Function) {
+func c06Registration(r *core.Run, root []*ssa.Function, ro *muxRoles) {
 	p := r.P
 	byName := func(recv, name string) *ssa.Function {
 		if recv == "" {
@@ -419,31 +461,27 @@ func c06Registration(r *core.Run, root []*ssa.Function) {
 		}
 		return nil
 	}
-	add := byName("Mux", "add")
-	if add == nil {
-		r.Unres("R3", "(*Mux).add", "not found")
-		return
-	}
+	add := ro.add
 	var fetchCall, setParams ssa.CallInstruction
 	for _, c := range core.Calls(add) {
 		if cal := c.Common().StaticCallee(); cal != nil {
-			switch cal.Name() {
-			case "fetch":
+			switch cal {
+			case ro.fetch:
 				fetchCall = c
-			case "setAndValidateParams":
+			case ro.setParams:
 				setParams = c
 			}
 		}
 	}
-	guards := panicGuards(add)
+	guards := guardMap(add)
 	g, ok := panicsUnlessCall(add, "IsValid")
 	r.Check(ok && fetchCall != nil && core.Dominates(g, fetchCall), "R3", core.FuncName(add), "IsValid-panic-before-fetch", p.Pos(add.Pos()), "an invalid pattern panics before the trie is touched", "add() does not reject invalid patterns before inserting nodes")
-	hsField := core.Field{Struct: "node", Name: "hs"}
+	hsField := ro.nodeHs
 	for _, ac := range core.FieldAccesses([]*ssa.Function{add}, func(f core.Field) bool { return f == hsField }) {
 		if ac.Kind != "store" {
 			continue
 		}
-		g2, ok2 := guards["node.hs!=nil"]
+		g2, ok2 := guards[ro.nodeHs.String()+"!=nil"]
 		r.Check(ok2 && core.Dominates(g2, ac.Instr) && setParams != nil && core.Dominates(setParams, ac.Instr), "R3", core.FuncName(add), "store(node.hs)-after-duplicate-panic-and-param-validation", p.InstrPos(ac.Instr),
 			"a second registration on the node panics and placeholder positions are validated before the handler is stored", "the handler is stored without the duplicate check / parameter validation dominating it")
 	}
@@ -457,13 +495,13 @@ func c06Registration(r *core.Run, root []*ssa.Function) {
 		r.Check(ok, "R3", core.FuncName(fn), "isValidPath-panic", p.Pos(fn.Pos()), "invalid paths are rejected by panic", nm[1]+" does not reject invalid paths")
 	}
 	if fn := byName("Mux", "Mount"); fn != nil {
-		gs := panicGuards(fn)
-		_, a1 := gs["Mux.parent!=nil"]
-		_, a2 := gs["Mux.s!=nil"]
+		gs := guardMap(fn)
+		_, a1 := gs[ro.muxParent.String()+"!=nil"]
+		_, a2 := gs[ro.muxSvc.String()+"!=nil"]
 		r.Check(a1 && a2, "R3", core.FuncName(fn), "already-mounted/registered-panic", p.Pos(fn.Pos()), "a mux can be mounted once and not after registration", "Mount does not reject an already mounted / registered mux")
 	}
 	// setAndValidateParams: mismatch panics
-	if fn := p.Func("setAndValidateParams"); fn != nil {
+	if fn := ro.setParams; fn != nil {
 		n := 0
 		for _, b := range fn.Blocks {
 			if _, ok := b.Instrs[len(b.Instrs)-1].(*ssa.Panic); ok {
@@ -497,4 +535,170 @@ func c06Registration(r *core.Run, root []*ssa.Function) {
 		}
 		r.Check(good, "R3", core.FuncName(fn), "returns-ValidateListeners-error", p.Pos(fn.Pos()), "listeners without a handler make Serve fail", "serve does not return ValidateListeners' error")
 	}
+}
+
+// muxRoles are the role-resolved unexported anchors of the mux.
+type muxRoles struct {
+	nodeNodes, nodeParam, nodeWild, nodeHs, nodeParams, nodeListeners core.Field
+	nmNode, nmMountIdx, nmParams                                   core.Field
+	ppIdx, gpIdx, rhGroup, muxParent, muxSvc                       core.Field
+	matchNode, fetch, add, setParams, parseGroup, toString         *ssa.Function
+}
+
+func resolveMuxRoles(r *core.Run) *muxRoles {
+	p := r.P
+	ro := &muxRoles{}
+	ok := true
+	need := func(f core.Field, found bool, what string) core.Field {
+		if !found {
+			r.Unres("R1", what, "role not resolvable (0 or several candidates)")
+			ok = false
+		}
+		return f
+	}
+	f, b := fieldByType(p, "", "node", func(t types.Type) bool {
+		m, isMap := t.Underlying().(*types.Map)
+		return isMap && core.TypeName(m.Elem()) == "node"
+	})
+	ro.nodeNodes = need(f, b, "node.children-map")
+	f, b = fieldByType(p, "", "node", ptrTo("regHandler"))
+	ro.nodeHs = need(f, b, "node.handler")
+	f, b = fieldByType(p, "", "node", func(t types.Type) bool {
+		sl, isSl := t.Underlying().(*types.Slice)
+		return isSl && core.TypeName(sl.Elem()) == "pathParam"
+	})
+	ro.nodeParams = need(f, b, "node.params")
+	f, b = fieldByType(p, "", "node", func(t types.Type) bool {
+		sl, isSl := t.Underlying().(*types.Slice)
+		if !isSl {
+			return false
+		}
+		_, isFn := sl.Elem().Underlying().(*types.Signature)
+		return isFn
+	})
+	ro.nodeListeners = need(f, b, "node.listeners")
+	f, b = fieldByType(p, "", "nodeMatch", ptrTo("node"))
+	ro.nmNode = need(f, b, "nodeMatch.node")
+	f, b = fieldByType(p, "", "nodeMatch", typeIs("int"))
+	ro.nmMountIdx = need(f, b, "nodeMatch.mountIdx")
+	f, b = fieldByType(p, "", "nodeMatch", func(t types.Type) bool { _, isMap := t.Underlying().(*types.Map); return isMap })
+	ro.nmParams = need(f, b, "nodeMatch.params")
+	f, b = fieldByType(p, "", "pathParam", typeIs("int"))
+	ro.ppIdx = need(f, b, "pathParam.index")
+	f, b = fieldByType(p, "", "gpart", typeIs("int"))
+	ro.gpIdx = need(f, b, "gpart.index")
+	f, b = fieldByType(p, "", "regHandler", typeIs("group"))
+	ro.rhGroup = need(f, b, "regHandler.group")
+	f, b = fieldByType(p, "", "Mux", ptrTo("Mux"))
+	ro.muxParent = need(f, b, "Mux.parent")
+	f, b = fieldByType(p, "", "Mux", ptrTo("Service"))
+	ro.muxSvc = need(f, b, "Mux.service")
+	one := func(what string, pred func(*ssa.Function) bool) *ssa.Function {
+		fs := funcsWhere(p, "", pred)
+		if len(fs) != 1 {
+			r.Unres("R1", what, fmt.Sprintf("%d candidates", len(fs)))
+			ok = false
+			return nil
+		}
+		return fs[0]
+	}
+	hasParamType := func(fn *ssa.Function, tn string) bool {
+		for _, prm := range fn.Params {
+			if core.TypeName(prm.Type()) == tn {
+				return true
+			}
+		}
+		return false
+	}
+	ro.matchNode = one("matchNode", func(fn *ssa.Function) bool {
+		if !hasParamType(fn, "nodeMatch") {
+			return false
+		}
+		return callsStatic(fn, func(c *ssa.Function) bool { return c == fn })
+	})
+	ro.fetch = one("fetch", func(fn *ssa.Function) bool {
+		res := fn.Signature.Results()
+		return fn.Signature.Recv() != nil && core.TypeName(fn.Signature.Recv().Type()) == "Mux" && res.Len() >= 2 && core.TypeName(res.At(0).Type()) == "node"
+	})
+	ro.setParams = one("setAndValidateParams", func(fn *ssa.Function) bool {
+		return fn.Signature.Recv() == nil && fn.Signature.Params().Len() == 2 && hasParamType(fn, "node") && fn.Signature.Results().Len() == 0 && strings.Contains(fn.Signature.Params().At(1).Type().String(), "pathParam")
+	})
+	ro.parseGroup = one("parseGroup", func(fn *ssa.Function) bool {
+		if !(fn.Signature.Recv() == nil && fn.Signature.Results().Len() == 1 && core.TypeName(fn.Signature.Results().At(0).Type()) == "group" && fn.Signature.Params().Len() == 2) {
+			return false
+		}
+		for i := 0; i < 2; i++ {
+			if b, isB := fn.Signature.Params().At(i).Type().Underlying().(*types.Basic); !isB || b.Kind() != types.String {
+				return false
+			}
+		}
+		return true
+	})
+	ro.toString = one("group.toString", func(fn *ssa.Function) bool {
+		return fn.Signature.Recv() != nil && core.TypeName(fn.Signature.Recv().Type()) == "group" && fn.Signature.Results().Len() == 1 && fn.Signature.Params().Len() == 2
+	})
+	if ro.fetch != nil {
+		ro.add = one("add", func(fn *ssa.Function) bool {
+			if fn.Signature.Recv() == nil || core.TypeName(fn.Signature.Recv().Type()) != "Mux" || fn.Object() == nil || fn.Object().Exported() {
+				return false
+			}
+			if !callsStatic(fn, func(c *ssa.Function) bool { return c == ro.fetch }) {
+				return false
+			}
+			for _, b := range fn.Blocks {
+				for _, in := range b.Instrs {
+					if st, isSt := in.(*ssa.Store); isSt {
+						if g, isF := core.FieldOf(st.Addr); isF && g == ro.nodeHs {
+							return true
+						}
+					}
+				}
+			}
+			return false
+		})
+	}
+	// the two *node fields of node: wild is the one fetch assigns on the '>' edge
+	if st, isSt := structType(p, "", "node"); isSt && ro.fetch != nil {
+		var cands []string
+		for i := 0; i < st.NumFields(); i++ {
+			if pt, isP := st.Field(i).Type().(*types.Pointer); isP && core.TypeName(pt.Elem()) == "node" {
+				cands = append(cands, st.Field(i).Name())
+			}
+		}
+		wild := ""
+		for _, b := range ro.fetch.Blocks {
+			for _, in := range b.Instrs {
+				stI, isSt := in.(*ssa.Store)
+				if !isSt {
+					continue
+				}
+				g, isF := core.FieldOf(stI.Addr)
+				if !isF || g.Struct != "node" {
+					continue
+				}
+				for _, ed := range dominatingEdges(stI) {
+					if bo, isB := ed.If.Cond.(*ssa.BinOp); isB && ed.Succ == 0 {
+						if k, isC := core.ConstInt(bo.Y); isC && k == '>' {
+							wild = g.Name
+						}
+					}
+				}
+			}
+		}
+		if len(cands) == 2 && wild != "" {
+			ro.nodeWild = core.Field{Struct: "node", Name: wild}
+			for _, c := range cands {
+				if c != wild {
+					ro.nodeParam = core.Field{Struct: "node", Name: c}
+				}
+			}
+		} else {
+			r.Unres("R1", "node.param/node.wild", fmt.Sprintf("candidates %v wild=%q", cands, wild))
+			ok = false
+		}
+	}
+	if !ok {
+		return nil
+	}
+	return ro
 }
